@@ -119,28 +119,27 @@ impl ParsedDirective {
 /// May return [ParseError] if the query is empty, there is no query root, or
 /// the query root is not formatted properly
 fn try_get_query_root(document: &ExecutableDocument) -> Result<&Positioned<Field>, ParseError> {
-    if let Some(v) = document.fragments.values().next() {
-        return Err(ParseError::DocumentContainsNonInlineFragments(v.pos));
+    // The document keeps fragments and named operations in hash maps, whose iteration order is
+    // arbitrary: always report the first offending item in document order.
+    if let Some(pos) = document.fragments.values().map(|v| v.pos).min() {
+        return Err(ParseError::DocumentContainsNonInlineFragments(pos));
     }
 
     match &document.operations {
         DocumentOperations::Multiple(mult) => {
-            if mult.values().len() > 1 {
-                Err(ParseError::MultipleOperationsInDocument(
-                    mult.values()
-                        .nth(2)
-                        .expect("Could not iterate to second value in document.")
-                        .pos,
-                ))
-            } else if let Some(node) = mult.values().next() {
-                parse_operation_definition(node)
-            } else {
-                // This should be unreachable if someone is using the library correctly
-                unreachable!(
-                    "Found a `DocumentOperations::Multiple()` with no query components. \
-                    This shouldn't be possible, and is a bug. Please report it at \
-                    https://github.com/obi1kenobi/trustfall/"
-                )
+            let mut operations: Vec<_> = mult.values().collect();
+            operations.sort_unstable_by_key(|op| op.pos);
+            match operations.as_slice() {
+                [node] => parse_operation_definition(node),
+                [_, second, ..] => Err(ParseError::MultipleOperationsInDocument(second.pos)),
+                [] => {
+                    // This should be unreachable if someone is using the library correctly
+                    unreachable!(
+                        "Found a `DocumentOperations::Multiple()` with no query components. \
+                        This shouldn't be possible, and is a bug. Please report it at \
+                        https://github.com/obi1kenobi/trustfall/"
+                    )
+                }
             }
         }
         DocumentOperations::Single(op) => parse_operation_definition(op),
